@@ -187,6 +187,7 @@ def run(facts, rep, tier):
 
 
 from lib import PCanon  # noqa: E402
+from lib import cpat as cpat_  # noqa: E402
 
 
 def swap_sides(text, v0, v1):
@@ -268,6 +269,36 @@ def run_d(facts, rep, tier):
                     rep.ob("C09.D2", "mirror-arms:%s/%s" % (h["fn"], en.split("::")[-1]), ok,
                            "the arm for members only in the first operand and the arm for members only in the second are mirror images" if ok else
                            "members that occur only in the first operand are handled by `%s` but those only in the second by `%s`: the merge depends on the order of the subschemas (and one side escapes the other side's constraints)" % (src(a0["body"])[:70], src(a1["body"])[:70]), a1.get("sp"))
+    # second form: the members of the two operands are paired up first (`(Option<&T>, Option<&T>)`), then
+    # `(Some(a), None)` and `(None, Some(b))` are the one-sided cases
+    if not n2:
+        for h in merge_fns:
+            ins = c.fns[h["fn"]].get("inputs", [])
+            if len(ins) < 2 or ins[0] != ins[1]:
+                continue
+            cn = PCanon(c, h, 4)
+            for m, manc in walk(h["body"]):
+                if m.get("k") != "match" or m.get("src") != "normal":
+                    continue
+                t = c.ty(m.get("scty")) or ""
+                mm = re.fullmatch(r"\((std::option::Option<.+>), \1\)", t)
+                if not mm:
+                    continue
+                only0 = [a for a in m["arms"] if re.fullmatch(r"\(Some\(.*\), None\)", cpat_(a["pat"]))]
+                only1 = [a for a in m["arms"] if re.fullmatch(r"\(None, Some\(.*\)\)", cpat_(a["pat"]))]
+                if len(only0) != 1 or len(only1) != 1:
+                    continue
+                S = cn.r(m["scrut"])
+                t0, t1 = cn.r(only0[0]["body"]), cn.r(only1[0]["body"])
+                if "$P0" not in t0 + t1 and "$P1" not in t0 + t1:
+                    continue
+                n2 += 1
+                sw = t0.replace("$P0", "$P\0").replace("$P1", "$P0").replace("$P\0", "$P1")
+                sw = sw.replace(S + ".0~Some", "\0").replace(S + ".1~Some", S + ".0~Some").replace("\0", S + ".1~Some")
+                ok = sw == t1 and only0[0].get("guard") is None and only1[0].get("guard") is None
+                rep.ob("C09.D2", "mirror-arms:%s/pair" % h["fn"], ok,
+                       "the arm for members only in the first operand and the arm for members only in the second are mirror images" if ok else
+                       "members that occur only in the first operand are handled by `%s` but those only in the second by `%s`: the merge depends on the order of the subschemas (and one side escapes the other side's constraints)" % (src(only0[0]["body"])[:70], src(only1[0]["body"])[:70]), only1[0].get("sp"))
     rep.floor("C09.D2", "one-sided case pairs in binary merges", n2, 1)
 
 
@@ -411,6 +442,9 @@ def run_d5(facts, rep, tier):
         # second shape: the value is classified once (`match value { Value::X => InstanceType::Y, .. }`) and compared with the type
         if classify_form(facts, rep, kinds):
             return
+        # third shape: a table of (InstanceType, .., predicate over the value) rows looked up by the type
+        if table_form(facts, rep, kinds):
+            return
     if not rep.floor("C09.D5", "instance-type test over a JSON value", len(sites), 1):
         return
     h, m = sites[0]
@@ -437,9 +471,9 @@ def run_d5(facts, rep, tier):
     rep.floor("C09.D5", "JSON Schema types with an arm", len(seen), 7)
 
 
-COMBINE = [(r"^max", "Ord::min", "an upper bound of an intersection is the smaller of the two"),
-           (r"^min", "Ord::max", "a lower bound of an intersection is the larger of the two"),
-           (r"^unique_items$", "BitOr::bitor", "uniqueItems holds in the intersection if either side demands it")]
+COMBINE = [(r"(^|_)max", ("Ord::min", "f64::min", "f32::min", "cmp::min", "min"), "an upper bound of an intersection is the smaller of the two"),
+           (r"(^|_)min", ("Ord::max", "f64::max", "f32::max", "cmp::max", "max"), "a lower bound of an intersection is the larger of the two"),
+           (r"^unique_items$", ("BitOr::bitor",), "uniqueItems holds in the intersection if either side demands it")]
 SETOPS = {"required": ("union", "a member required by either side is required by the intersection"),
           "~Vec": ("intersection", "an instance must have a type both sides allow")}
 
@@ -466,6 +500,8 @@ def run_d6(facts, rep, tier):
                 m1 = re.fullmatch(r"\$P1~Some\.(\w+)", a1)
                 if not (m0 and m1):
                     m0, m1 = re.fullmatch(r"\$P1~Some\.(\w+)", a0), re.fullmatch(r"\$P0~Some\.(\w+)", a1)
+                if not (m0 and m1) and not ("$P0" in a0 + a1 and "$P1" in a0 + a1):
+                    continue  # not a combination of the two operands (e.g. two members of the merged result)
                 n6 += 1
                 field = m0.group(1) if m0 else "?"
                 key = "%s/%s" % (h["fn"], field)
@@ -476,9 +512,9 @@ def run_d6(facts, rep, tier):
                 if not want:
                     rep.ob("C09.D6", "direction:" + key, False, "no reviewed combination for member `%s` (combined with `%s`)" % (field, comb), n.get("sp"))
                     continue
-                ok = comb == want[0][0]
+                ok = comb in want[0][0]
                 rep.ob("C09.D6", "direction:" + key, ok, "%s by %s (%s)" % (field, comb, want[0][1]) if ok else
-                       "`%s` of the two schemas is combined with `%s`; %s (`%s`): the merged type admits instances one side rejects, or rejects instances both admit" % (field, comb, want[0][1], want[0][0]), n.get("sp"))
+                       "`%s` of the two schemas is combined with `%s`; %s (`%s`): the merged type admits instances one side rejects, or rejects instances both admit" % (field, comb, want[0][1], want[0][0][0]), n.get("sp"))
             if n.get("k") == "mcall" and n["name"] in ("union", "intersection", "difference", "symmetric_difference") and n.get("args"):
                 cn = cn or PCanon(c, h, 3)
                 r0, r1 = cn.r(n["recv"]), cn.r(n["args"][0])
@@ -521,6 +557,62 @@ def run_d7(facts, rep, tier):
                        (n.get("fn") or n.get("name") or "?").split("::")[-1], [x.replace("$X", "a") for x in s0], [x.replace("$X", "b") for x in s1]), n.get("sp"))
             k_in += 1
     rep.floor("C09.D7", "calls handed members of both operands", n7, 8)
+
+
+def table_form(facts, rep, kinds):
+    """`const T: &[(InstanceType, &str, fn(&Value) -> bool)] = &[(InstanceType::Null, "null", Value::is_null), ..]`: each row's
+    predicate is evaluated over the JSON kinds (a `Value::is_*` method by its documented meaning, a fn of this crate or a
+    closure by abstract evaluation of its body)."""
+    c = facts.impl
+    for q, h in c.hir.items():
+        if h.get("derived"):
+            continue
+        for arr, _ in walk(h.get("body") or {}):
+            if arr.get("k") != "array" or len(arr.get("es", [])) < 5:
+                continue
+            rows = {}
+            usable = True
+            for row in arr["es"]:
+                if row.get("k") != "tup":
+                    usable = False
+                    break
+                tys = [x["path"].split("::")[-1] for x in row["es"] if x.get("k") == "path" and x.get("res") == "ctor" and "InstanceType::" in x.get("path", "")]
+                preds = [x for x in row["es"] if (x.get("k") == "path" and x.get("res") in ("assocfn", "fn")) or x.get("k") == "closure"]
+                if len(tys) != 1 or len(preds) != 1:
+                    usable = False
+                    break
+                pr = preds[0]
+                got = None
+                if pr.get("k") == "path":
+                    last = pr["path"].split("::")[-1]
+                    if "serde_json" in pr["path"] and last in kinds.IS:
+                        got = set(kinds.IS[last])
+                    elif pr["path"] in c.hir:
+                        ph = c.hir[pr["path"]]
+                        pn = [b_["name"] for b_, _ in walk(ph.get("params", [])) if b_.get("k") == "bind"]
+                        if pn:
+                            t_, f_ = kinds.Eval(c).cond(block_last(ph["body"]), kinds.ALL, pn[0])
+                            got = set(t_)
+                else:
+                    pn = [b_["name"] for b_, _ in walk(pr.get("params", [])) if b_.get("k") == "bind"]
+                    if pn:
+                        t_, f_ = kinds.Eval(c).cond(block_last(pr["body"]), kinds.ALL, pn[0])
+                        got = set(t_)
+                if got is None:
+                    usable = False
+                    break
+                rows.setdefault(tys[0], (set(), row))[0].update(got)
+            if not usable or len(rows) < 5:
+                continue
+            rep.floor("C09.D5", "instance-type test over a JSON value", 1, 1)
+            for name, need in TYPE_KINDS.items():
+                got, row = rows.get(name, (set(), arr))
+                miss = sorted(need - got)
+                rep.ob("C09.D5", "type-admits-its-kinds:%s" % name, not miss, "%s admits %s" % (name, sorted(got)) if not miss else
+                       "the table row for JSON Schema type `%s` tests the value with a predicate that rejects %s values: valid enum values of that kind are filtered out of a merged schema, so the generated type rejects valid instances" % (name.lower(), "/".join(miss)), row.get("sp") or arr.get("sp"))
+            rep.floor("C09.D5", "JSON Schema types with an arm", len(rows), 7)
+            return True
+    return False
 
 
 def classify_form(facts, rep, kinds):
